@@ -21,6 +21,11 @@ modified}.  modified without handler = silent out-of-view write (cause silent-oo
 write before check (the open finding); intact + needs satisfied + handler = spurious.  State sweep for <data>: the
 stored length prefix is set to {0, k-1, k, k+1, max} relative to the number k of elements assigned/inserted.
 
+Cursor traversals (guard-page mode): `auto c = init_cursor(m)`, the members before member k through the plain
+cursor (entries through cursor_range), member k READ through the cursor and each of the four wrappers and - scalar
+fields - WRITTEN through the setter `v.NAME(value, w)` with w = c, init(c), dont_move(c), init_dont_move(c)
+(`skip` has no setters); the specification of a setter run is that of the getter run of the same wrapper.
+
 impl vs spec  -> chk.report_failure with a narrow `case`
 model vs impl -> chk.report_unproved
 """
@@ -55,6 +60,8 @@ THEOREMS = [
     'Sbepp.Properties.C10.guard_sound_cursor_partial',
     'Sbepp.Properties.C10.no_silent_access_cursor_partial',
     'Sbepp.Properties.C10.guard_sound_cursor_full_false',
+    'Sbepp.Properties.C10.cursor_setter_as_getter',
+    'Sbepp.Properties.C10.no_silent_write_cursor',
     'Sbepp.Properties.C10.guard_complete_partial',
     'Sbepp.Properties.C10.guard_complete_touch_full_false',
 ]
@@ -160,7 +167,7 @@ def build_items(chk, run, values_per_msg, muts_per_image, max_image, max_chains,
                         pass
                     elif c10gen.exact_composites(c.s, m['name']):
                         it.cur = c10gen.CursorSpec(c10gen.Spec(bo, m, im))
-                        it.cruns = it.cur.runs()[:5 * max_cursor_members]
+                        it.cruns = it.cur.runs(max_cursor_members)
                     else:
                         run.stats['cursor_skipped_inexact_composite'] = run.stats.get(
                             'cursor_skipped_inexact_composite', 0) + 1
@@ -382,7 +389,7 @@ def judge_cursor(chk, run, it, cxx, std, impl, stats):
         mrun, mguard, mspec = it.cmodel[n]
         chk.cov['evaluations'] += nr
         stats['cursor_calls'] += nr
-        for ch in 'oAFU':
+        for ch in 'oAFU?':
             c_ = ib.count(ch)
             if c_:
                 stats['outcomes'][ch] = stats['outcomes'].get(ch, 0) + c_
@@ -397,6 +404,12 @@ def judge_cursor(chk, run, it, cxx, std, impl, stats):
             huge = it.cur.huge
             past = it.cur.past_end(k, n)
             bad = None
+            if got == '?':
+                if ('badrun', j) not in reported:
+                    reported.add(('badrun', j))
+                    chk.report_unproved('driver-cursor-run', {'cursor_member': k, 'variant': var, 'kind': kind,
+                                                              'message': it.m['name']})
+                continue
             if got in 'FU':
                 bad = 'out-of-view-access-not-asserted' if got == 'F' else 'undefined-behaviour'
             elif exp == 'o' and got != 'o':
@@ -428,10 +441,14 @@ def judge_cursor(chk, run, it, cxx, std, impl, stats):
                     'kind': 'impl≠spec', 'config': {'cxx': cxx, 'std': std, 'defines': ['SBEPP_ENABLE_ASSERTS_WITH_HANDLER']},
                     'schema_xml': open(it.case.xml).read(), 'schema_sexp': it.case.sexp, 'message': it.m['name'],
                     'image': wire.hexs(it.img), 'mutation': it.mut, 'n': n, 'cursor_member': k, 'cursor_wrapper': var,
-                    'driver_line': 'ctrav %s %s %d %d  # answer character %d' % (
-                        it.m['name'], wire.hexs(it.img), n, nr // 5, j),
+                    'cursor_run': 'member %d (%s) %s' % (k, kind, (
+                        'WRITTEN through the setter v.NAME(value, %s)' % {'plain': 'c'}.get(var[4:], 'cursor_ops::%s(c)' % var[4:])
+                        if var in c10gen.SETVARS else
+                        'read through v.NAME(%s)' % {'plain': 'c'}.get(var, 'cursor_ops::%s(c)' % var))),
+                    'driver_line': 'ctrav %s %s %d %s  # answer character 0' % (
+                        it.m['name'], wire.hexs(it.img), n, c10gen.cpp_ctrav_runs([it.cruns[j]])),
                     'model_line': c10gen.lean_ctrav_request(it.case.layout['byteOrder'], BASE, it.img, str(n), it.m,
-                                                            [r[2] for r in it.cruns], detail=True),
+                                                            [it.cruns[j]], detail=True),
                     'observed': {'impl': CH[got], 'spec': CH[exp], 'model': CH.get(mrun[j], mrun[j])},
                     'case': case})
             if mrun[j] == 'U' or huge:
@@ -443,8 +460,10 @@ def judge_cursor(chk, run, it, cxx, std, impl, stats):
                     'cursor_member': k, 'wrapper': var, 'kind': kind, 'n': n, 'impl': CH[got],
                     'model': CH.get(mrun[j], mrun[j]), 'spec': CH[exp], 'schema_xml': open(it.case.xml).read(),
                     'message': it.m['name'], 'image': wire.hexs(it.img), 'cxx': cxx, 'std': std,
+                    'driver_line': 'ctrav %s %s %d %s' % (it.m['name'], wire.hexs(it.img), n,
+                                                         c10gen.cpp_ctrav_runs([it.cruns[j]])),
                     'model_line': c10gen.lean_ctrav_request(it.case.layout['byteOrder'], BASE, it.img, str(n), it.m,
-                                                            [r[2] for r in it.cruns], detail=True)[:3000]})
+                                                            [it.cruns[j]], detail=True)})
 
 
 def run_schemas(chk, nschemas, configs, values_per_msg, muts_per_image, max_image=200, max_chains=160,
@@ -453,7 +472,14 @@ def run_schemas(chk, nschemas, configs, values_per_msg, muts_per_image, max_imag
     stats = {'calls': 0, 'kinds': {}, 'outcomes': {}, 'boundary': 0, 'ok_beyond_needs': 0, 'model_mismatch': 0,
              'ok_beyond_needs_kinds': {}, 'ok_beyond_needs_samples': [], 'violations_by_cause': {}, 'model_undefined': 0, 'wrap_regime_ok': 0, 'spec_only_calls': 0,
              'images': 0, 'mutated_images': 0, 'chains': 0, 'truncation_points': 0, 'cursor_calls': 0,
-             'cursor_runs': 0, 'canary_calls': 0, 'canary_outcomes': {}, 'canary_chains': 0}
+             'cursor_runs': 0, 'canary_calls': 0, 'canary_outcomes': {}, 'canary_chains': 0,
+             # setter variants of the cursor stream; `gap`: scalar field with a non-zero cursor-relative offset
+             # (custom `offset=` leaving a gap behind the previous field / the level start); `window points`:
+             # truncation lengths n at which a size check made at the un-advanced cursor would still pass while the
+             # field's bytes end beyond n, i.e. n in [cursor + size, cursor + gap + size)
+             'cursor_setter_runs': 0, 'cursor_gap_setter_runs': 0, 'cursor_gap_setter_runs_nonlast_plain': 0,
+             'cursor_gap_window_points': 0, 'cursor_gap_window_points_nonlast_plain': 0,
+             'cursor_images_with_gap_setter': 0}
     try:
         if not run.prepare():
             return run, stats
@@ -489,10 +515,25 @@ def run_schemas(chk, nschemas, configs, values_per_msg, muts_per_image, max_imag
         # model
         reqs = [c10gen.lean_request(it.case.layout['byteOrder'], BASE, it.img, 'all', it.m,
                                     [(ev.needs_end, ev.lean_ops) for ev in it.evals if ev.modelled]) for it in items]
-        creqs = [(i, c10gen.lean_ctrav_request(it.case.layout['byteOrder'], BASE, it.img, 'all', it.m,
-                                               [r[2] for r in it.cruns]))
+        creqs = [(i, c10gen.lean_ctrav_request(it.case.layout['byteOrder'], BASE, it.img, 'all', it.m, it.cruns))
                  for i, it in enumerate(items) if it.cruns]
         stats['cursor_runs'] = sum(len(it.cruns) for it in items)
+        for it in items:
+            anygap = False
+            for (k, var, _ne, _kind) in it.cruns:
+                if var not in c10gen.SETVARS:
+                    continue
+                stats['cursor_setter_runs'] += 1
+                f = it.cur.members[k]['field']
+                if f['rel'] > 0:
+                    anygap = True
+                    pts = max(0, min(f['cur'] + f['rel'] + f['size'], len(it.img) + 1) - (f['cur'] + f['size']))
+                    stats['cursor_gap_setter_runs'] += 1
+                    stats['cursor_gap_window_points'] += pts
+                    if var == 'set.plain' and not f['last']:
+                        stats['cursor_gap_setter_runs_nonlast_plain'] += 1
+                        stats['cursor_gap_window_points_nonlast_plain'] += pts
+            stats['cursor_images_with_gap_setter'] += 1 if anygap else 0
         kreqs = [(i, c10gen.lean_request(it.case.layout['byteOrder'], BASE, it.img, 'all', it.m,
                                          [(it.evals[j].needs_end, it.evals[j].lean_ops) for j in it.cidx
                                           if it.evals[j].modelled], canary=True))
@@ -577,8 +618,8 @@ def run_schemas(chk, nschemas, configs, values_per_msg, muts_per_image, max_imag
             for i in idxs:
                 lines.append('trunc %s %s all %s' % (items[i].m['name'], wire.hexs(items[i].img) or '-',
                                                      ';'.join(ev.cpp_path for ev in items[i].evals)))
-                lines.append('ctrav %s %s all %d' % (items[i].m['name'], wire.hexs(items[i].img) or '-',
-                                                    len(items[i].cruns) // 5))
+                lines.append('ctrav %s %s all %s' % (items[i].m['name'], wire.hexs(items[i].img) or '-',
+                                                    c10gen.cpp_ctrav_runs(items[i].cruns)))
                 lines.append('canary %s %s all %d %s' % (
                     items[i].m['name'], wire.hexs(items[i].img) or '-', c10gen.CANARY_SLACK,
                     ';'.join(items[i].evals[j].cpp_path for j in items[i].cidx) or 'z'))
@@ -638,8 +679,9 @@ def run(chk):
     W.finish_cov(chk, run_, 'one evaluation = one accessor chain (every accessor kind of a generated message on its own: '
                  'field getters/setters, composite/array views and elements, header access, group size/begin/++/*/[] '
                  'and size_bytes, entry members recursively, data size/data/elements/resize/assign_range and container '
-                 'operations; cursor traversals: every member through the plain cursor and through each of the four '
-                 'wrappers after a traversal prefix) called on '
+                 'operations; cursor traversals: every member read through the plain cursor and through each of the four '
+                 'wrappers after a traversal prefix, scalar fields also written through the cursor setter and the '
+                 'setters of init / dont_move / init_dont_move) called on '
                  'make_view<Msg>(p, n) over a buffer of exactly n accessible bytes, for one n in 0..|image|, one '
                  'compiler configuration of a checked build; distinct = distinct (schema, message, image)')
     chk.cov['c10'] = {k: v for k, v in stats.items() if k != 'kinds'}
